@@ -370,12 +370,17 @@ type c05Dir struct {
 	N2      int    `json:"n2"`      // submissions afterwards
 	Local   bool   `json:"local"`
 	Clean   bool   `json:"clean"` // a store-cleaning tick before the destination appears
+	Dups    int    `json:"dups"`  // received bundles: the first one is received again this many times
 }
 
 func TestVerifC05Directed(t *testing.T) {
 	u := vk.Unit{Property: "C05", Name: "c05.directed",
-		Rule: "exhaustive product: algorithm (6) x creation-time kind (now / same millisecond / zero + age block) x 1..3 bundles accepted while no peer is connected x 0..2 orderly restarts x 0..2 further bundles afterwards x submitted locally or received x optional store-cleaning tick; then the destination node appears and a retry tick runs. Oracle as c05.histories (retained and pending until a success; transmitted to the connected destination). Every case non-trivial (bundles wait in the store); distinct by tuple"}
-	vk.Enumerate(t, u, true, func(yield func(c05Dir) bool) {
+		Rule: "exhaustive product: algorithm (6) x creation-time kind (now / same millisecond / zero + age block) x 1..3 bundles accepted while no peer is connected x 0..2 orderly restarts x 0..2 further bundles afterwards x submitted locally or received (then also: the first bundle received again 0 / 2 / 3 times) x optional store-cleaning tick (quick: a pseudo-random half of the product, offset by the seed; thorough: all of it); then the destination node appears and a retry tick runs. Oracle as c05.histories (retained and pending until a success; transmitted to the connected destination). Every case non-trivial (bundles wait in the store); distinct by tuple"}
+	sample := 2
+	if vk.Tier() == "thorough" {
+		sample = 1
+	}
+	vk.Enumerate(t, u, sample == 1, func(yield func(c05Dir) bool) {
 		i := 0
 		for _, algo := range c05Algos {
 			for ts := 0; ts <= 2; ts++ {
@@ -387,12 +392,32 @@ func TestVerifC05Directed(t *testing.T) {
 									if rs == 0 && n2 > 0 {
 										continue // same as a larger n1
 									}
-									i++
-									if !vk.ShardOwns(i) {
-										continue
+									dups := []int{0}
+									if !local {
+										dups = []int{0, 2, 3}
 									}
-									if !yield(c05Dir{algo, ts, n1, rs, n2, local, clean}) {
-										return
+									for _, dp := range dups {
+										// quick: a pseudo-random half of the product (by hash, offset by the seed)
+										h := uint64(len(algo))*0x9E3779B97F4A7C15 + uint64(ts*7919+n1*104729+rs*1299709+n2*15485863+dp*32452843) + uint64(vk.BaseSeed())*0xD1B54A32D192ED03
+										if local {
+											h += 0x51ED27
+										}
+										if clean {
+											h += 0xA24BAED4963EE407
+										}
+										h ^= h >> 31
+										h *= 0x9E3779B97F4A7C15
+										h ^= h >> 29
+										if sample > 1 && h%uint64(sample) != 0 {
+											continue
+										}
+										i++
+										if !vk.ShardOwns(i) {
+											continue
+										}
+										if !yield(c05Dir{algo, ts, n1, rs, n2, local, clean, dp}) {
+											return
+										}
 									}
 								}
 							}
@@ -416,6 +441,9 @@ func TestVerifC05Directed(t *testing.T) {
 		}
 		for i := 0; i < d.N1; i++ {
 			cs.Ops = append(cs.Ops, hOp{Op: verb, A: i})
+		}
+		for i := 0; i < d.Dups; i++ {
+			cs.Ops = append(cs.Ops, hOp{Op: "recvdup", A: 0})
 		}
 		for r := 0; r < d.Restart; r++ {
 			cs.Ops = append(cs.Ops, hOp{Op: "restart"})
